@@ -144,12 +144,16 @@ class CountMinSketch(FrequencySketch[T]):
 
     def _hash(self, item: T, row: int) -> int:
         """Hash an item to a column index for a specific row."""
-        # Combine item hash with row-specific seed.  The item is hashed through its
-        # repr (like BloomFilter and HyperLogLog) rather than the builtin hash(),
-        # whose value for str/bytes changes with PYTHONHASHSEED from process to
-        # process and would make counts and estimates irreproducible.
-        item_digest = hashlib.sha256(repr(item).encode("utf-8")).digest()
-        item_hash = struct.unpack(">Q", item_digest[:8])[0]
+        # Combine item hash with row-specific seed.  The builtin hash() of str and
+        # bytes changes with PYTHONHASHSEED from process to process and would make
+        # counts and estimates irreproducible, so such items are hashed through their
+        # repr (like BloomFilter and HyperLogLog).  Numbers keep the builtin hash: it
+        # does not depend on the hash seed and agrees for equal numbers (1 == 1.0).
+        if isinstance(item, (int, float, complex)):
+            item_hash = hash(item)
+        else:
+            item_digest = hashlib.sha256(repr(item).encode("utf-8")).digest()
+            item_hash = struct.unpack(">Q", item_digest[:8])[0]
         combined = item_hash ^ self._hash_seeds[row]
         # Mask to 64 bits to avoid overflow in struct.pack
         combined = combined & 0xFFFFFFFFFFFFFFFF
